@@ -59,7 +59,17 @@ func modInstancesOf(corpus, rel string, gp *packages.Package, gf *ast.File, sp *
 func passThrough(gp, sp *packages.Package, sfset *token.FileSet, d, site *ast.CallExpr, fd *ast.FuncDecl, decls map[types.Object]*ast.FuncDecl) *gen.ModCheck {
 	mc := &gen.ModCheck{Checked: true}
 	bad := func(f string, a ...interface{}) { mc.Problems = append(mc.Problems, fmt.Sprintf(f, a...)) }
-	norm := func(e ast.Expr) string { return strings.Join(strings.Fields(types.ExprString(e)), " ") }
+	// (gofmt prints `((x))` as `(x)`: directly nested parentheses are collapsed before comparing)
+	norm := func(e ast.Expr) string {
+		s := strings.Join(strings.Fields(types.ExprString(e)), " ")
+		for {
+			t := collapseParens(s)
+			if t == s {
+				return s
+			}
+			s = t
+		}
+	}
 	ginfo := gp.TypesInfo
 	if len(site.Args) != len(d.Args) {
 		bad("the generated call has %d arguments, the directive %d", len(site.Args), len(d.Args))
@@ -269,4 +279,50 @@ func modSites(gp *packages.Package, gf *ast.File) ([]*ast.CallExpr, map[types.Ob
 	}
 	sort.Slice(sites, func(i, j int) bool { return sites[i].Pos() < sites[j].Pos() })
 	return sites, impl, decls
+}
+
+// collapseParens rewrites one level of `((...))` (a parenthesised expression that is itself only a parenthesised
+// expression) to `(...)`, outside string literals.
+func collapseParens(s string) string {
+	// match[i] = index of the parenthesis matching the one at i
+	match := map[int]int{}
+	var stack []int
+	inStr := byte(0)
+	for i := 0; i < len(s); i++ {
+		c := s[i]
+		if inStr != 0 {
+			if c == '\\' && inStr != '`' {
+				i++
+			} else if c == inStr {
+				inStr = 0
+			}
+			continue
+		}
+		switch c {
+		case '"', '`', '\'':
+			inStr = c
+		case '(':
+			stack = append(stack, i)
+		case ')':
+			if len(stack) > 0 {
+				o := stack[len(stack)-1]
+				stack = stack[:len(stack)-1]
+				match[o] = i
+			}
+		}
+	}
+	for o, cl := range match {
+		if o+1 < len(s) && s[o+1] == '(' && match[o+1] == cl-1 {
+			// an argument list `f((x))` also looks like this; only collapse when the outer parenthesis does not follow a
+			// callee (identifier, closing bracket or parenthesis)
+			if o > 0 {
+				p := s[o-1]
+				if p == ')' || p == ']' || p == '}' || p == '_' || p >= '0' && p <= '9' || p >= 'a' && p <= 'z' || p >= 'A' && p <= 'Z' {
+					continue
+				}
+			}
+			return s[:o] + s[o+1:cl] + s[cl+1:]
+		}
+	}
+	return s
 }
